@@ -58,6 +58,21 @@ func main() {
 	entryFields := map[string][]string{}   // journal entry struct -> field names in declaration order
 	undoUses := map[string]map[string]bool{} // journal entry struct -> fields its undo method reads
 	var literals []string                    // "type:field,field" per composite literal of a journal entry type
+	pkgVars := map[string]bool{}             // package-level variables
+	var stateWriters, forkReads []string     // "func:var" assignments to package-level state; "func:flag" fork flag reads
+	for _, pkg := range pkgs {
+		for _, f := range pkg.Files {
+			for _, d := range f.Decls {
+				if gd, ok := d.(*ast.GenDecl); ok && gd.Tok == token.VAR {
+					for _, sp := range gd.Specs {
+						for _, n := range sp.(*ast.ValueSpec).Names {
+							pkgVars[n.Name] = true
+						}
+					}
+				}
+			}
+		}
+	}
 	for _, pkg := range pkgs {
 		for _, f := range pkg.Files {
 			for _, d := range f.Decls {
@@ -82,6 +97,45 @@ func main() {
 					continue
 				}
 				rn := recvName(fd)
+				// writes to package-level state and reads of fork flags
+				locals := map[string]bool{}
+				ast.Inspect(fd, func(n ast.Node) bool {
+					switch x := n.(type) {
+					case *ast.AssignStmt:
+						if x.Tok == token.DEFINE {
+							for _, l := range x.Lhs {
+								if id, ok := l.(*ast.Ident); ok {
+									locals[id.Name] = true
+								}
+							}
+						}
+					case *ast.Field:
+						for _, n := range x.Names {
+							locals[n.Name] = true
+						}
+					}
+					return true
+				})
+				ast.Inspect(fd.Body, func(n ast.Node) bool {
+					switch x := n.(type) {
+					case *ast.AssignStmt:
+						if x.Tok != token.DEFINE {
+							for _, l := range x.Lhs {
+								if id, ok := l.(*ast.Ident); ok && pkgVars[id.Name] && !locals[id.Name] {
+									stateWriters = append(stateWriters, fd.Name.Name+":"+id.Name)
+								}
+							}
+						}
+					case *ast.CallExpr:
+						if sel, ok := x.Fun.(*ast.SelectorExpr); ok {
+							if id, ok := sel.X.(*ast.Ident); ok && id.Name == "common" &&
+								(strings.HasPrefix(sel.Sel.Name, "IsProposal") || sel.Sel.Name == "IsSub" || sel.Sel.Name == "GetBlockHeight") {
+								forkReads = append(forkReads, fd.Name.Name+":"+sel.Sel.Name)
+							}
+						}
+					}
+					return true
+				})
 				// composite literals of journal entry types, wherever they are built
 				ast.Inspect(fd.Body, func(n ast.Node) bool {
 					cl, ok := n.(*ast.CompositeLit)
@@ -238,6 +292,10 @@ func main() {
 	}
 	sort.Strings(literals)
 	fmt.Fprintf(&sb, "]\n\n/-- every composite literal of a journal entry type with the fields it sets (#n = n positional values) -/\ndef literals : List String := %s\n\n", q(literals))
+	sort.Strings(stateWriters)
+	sort.Strings(forkReads)
+	fmt.Fprintf(&sb, "/-- assignments to package-level variables: function:variable -/\ndef pkgStateWriters : List String := %s\n\n", q(stateWriters))
+	fmt.Fprintf(&sb, "/-- reads of fork / configuration flags: function:flag -/\ndef forkReads : List String := %s\n\n", q(forkReads))
 	sb.WriteString("end Rangers.Generated.JournalFacts\n")
 	if err := os.WriteFile(out, []byte(sb.String()), 0644); err != nil {
 		fmt.Fprintln(os.Stderr, err)
